@@ -68,25 +68,25 @@ add("C16", "exploration",
 
 add("C09", "exploration",
     "stateful model-based property testing (Hypothesis histories vs a hash-free association-list model over == classes)",
-    "Histories of every listed dictionary operation over a pool of ~50 keys rich in distinct-but-equal representatives (int/float/"
-    "rational/complex, big/small, nested in lists/vectors/dicts, NaN, -0.0); after each operation len, membership and lookup of every "
-    "pool key and the contents are compared; unique/frequencies/count_distinct/group_all/memoize/set on key lists.",
+    "Histories of every listed dictionary operation over a pool of ~60 keys rich in distinct-but-equal representatives (int/float/"
+    "rational/complex, big/small, nested in lists/vectors/dicts, NaN also inside vectors, -0.0, dicts differing only in their default); after each operation len, membership and lookup of every "
+    "pool key and the contents are compared; unique/frequencies/count_distinct/group_all/memoize (also variadic argument tuples)/set on key lists.",
     "Trusted: the model's exact equality (Fraction-based), nlrun serialiser, Hypothesis. Key representative and iteration order not compared.",
     "DESIGN.md §3 C09")
 
 add("C10", "exploration",
     "exhaustive bounded grid enumeration against Python list/bytes indexing, plus Hypothesis-generated extreme index/slice bounds",
-    "All eight sequence kinds x lengths 0..6 (0..9 thorough) x every index in [-len-3, len+3] and around +-2^31/2^63/2^64/10^30 "
+    "All fourteen sequence kinds (incl. six partly consumed streams) x lengths 0..6 (0..9 thorough) x every index in [-len-3, len+3] and around +-2^31/2^63/2^64/10^30 "
     "(also small values in big-integer representation and non-integers) x all slice-bound pairs x every accessor in two call forms "
     "x every write form; a process abort on a tiny sequence is isolated and reported as a violation.",
-    "Trusted: Python slicing semantics, nlrun serialiser. Multi-byte strings only for s[i] / s[a:b]; slice bounds beyond 64 bits may raise.",
+    "Trusted: Python slicing semantics, nlrun serialiser. uncons/unsnoc/only are character-based on strings and use ASCII only; slice bounds beyond 64 bits may raise.",
     "DESIGN.md §3 C10")
 
 add("C11", "exploration",
     "property-based testing (Hypothesis-generated stream specs) against Python generator reference (range/itertools), ~35 observations per stream on one variable",
     "Finite streams of every listed constructor, at every dropped-prefix position, must agree with list(s) for len/index/slice/"
     "reverse/last/in/truthiness/unpacking/for/consumers, and list(s) is re-read at the end to show the variable did not advance; "
-    "infinite streams through prefixes, indices, bounded slices and len == inf.",
+    "membership by value across numeric levels; infinite streams through prefixes, indices, bounded slices and len == inf; iterate with a breaking / failing step function up to its last defined element.",
     "Trusted: Python range/itertools orders as documented in streams.rs/BUILTINS.md, nlrun serialiser, Hypothesis. Length <= 5000.",
     "DESIGN.md §3 C11")
 
@@ -101,7 +101,7 @@ add("C12", "exploration",
     "DESIGN.md §3 C12")
 add("C13", "exploration",
     "property-based testing (Hypothesis) against an executable specification: one Python definition per sequence function",
-    "66 function forms x input kinds (list/vector/bytes/string/stream) x lengths 0..64 with repeats x callback families (incl. "
+    "~70 function forms x input kinds (list/vector/bytes/string/stream) x lengths 0..64 with repeats x callback families (incl. "
     "non-commutative folds, tie-producing comparators, a throwing callback); sort/sort_on checked for stability through "
     "position-tagged pairs, unique for first occurrences, kind preservation of filter-like functions, documented enumeration orders.",
     "Trusted: the Python definitions written from BUILTINS.md, nlrun serialiser, Hypothesis. partition's result kind not asserted.",
@@ -116,15 +116,15 @@ add("C14", "fault_enumeration",
 
 add("C02", "exploration",
     "metamorphic allocation scaling: bytes requested from a counting global allocator during a mutation loop at n and 4n (enumerated forms + Hypothesis-generated interleavings)",
-    "34 mutation forms over lists, rows, dicts (with/without default), vectors, bytes, struct fields and nested paths, plain / type-annotated / "
+    "~55 mutation forms over lists, rows, dicts (with/without default), vectors, bytes, strings, struct fields, nested paths, closure-captured variables, user-closure operators, and-lvalues and stacks at a capacity boundary, plain / type-annotated / "
     "with one extra holder, and generated interleavings of 2-3 forms: A(4n) <= 7 A(n) (linear ~4, copy-per-operation ~16), alias variant at most "
     "one copy per holder; each workload's result is probed so a failed loop cannot pass as fast.",
-    "Trusted: the counting #[global_allocator] in nlrun (deterministic byte counts). Two sizes only; strings/$=/x{..}/every..f= reported, not asserted.",
+    "Trusted: the counting #[global_allocator] in nlrun (deterministic byte counts). Two sizes only; $=/x{..}/every..f= reported, not asserted.",
     "DESIGN.md §3 C02")
 add("C03", "exploration",
     "property-based testing (Hypothesis) plus exhaustive small-chain enumeration against two independent reference groupers; metamorphic full parenthesisation; evaluation-order log",
-    "Chains of 2-7 operators over tree-building closures, right/left-associative builtin copies with runtime-assigned precedences (all weak "
-    "orders incl. +-inf for <= 3-4 operators), comparison / zip / ** aliases with n-ary merging, til/to+by, fold/scan+from, replace+with, "
+    "Chains of 1-7 operators over tree-building closures, right/left-associative builtin copies with runtime-assigned precedences (all weak "
+    "orders incl. +-inf for <= 3-4 operators), comparison / zip / ** / &&& / *** aliases with n-ary merging (mixed families must not merge), precedences also reached through op-assignment, til/to+by, fold/scan+from, replace+with, "
     "zip+with templates over a precedence grid incl. a trailing third operator; direct, parenthesised and underscore-section routes; "
     "operands and operator expressions logged exactly once left to right.",
     "Trusted: the two Python groupers (cross-checked against each other), nlrun serialiser, Hypothesis. No NaN precedences.",
@@ -132,7 +132,7 @@ add("C03", "exploration",
 add("C04", "exploration",
     "exhaustive differential grid: every callable x argument tuples from a 54-value pool, all application forms of the statement evaluated and compared (equal canonical outcome or common failure)",
     "~310 builtins/types plus 21 user callables (closures, defaults, splats, compositions, left/right sections, flips) x pool^k (k=1..3): "
-    "infix, call, bang, backtick, four section forms, apply, of, splat, op-assign (also with a self-referring right side), left section, and the "
+    "infix, call, bang, backtick, four section forms, section+splat combinations, apply, of, splat, op-assign (also with a self-referring right side), left section, and the "
     "one-argument right-section rule for builtins.",
     "Trusted: the forms on the other side of the differential, nlrun serialiser (functions compared as opaque). group_all compared as multiset.",
     "DESIGN.md §3 C04")
@@ -143,7 +143,7 @@ add("C17", "translation_validation",
     "aliases and changing precedences the frozen function must still behave as L did at freeze time; freeze must raise exactly for "
     "lambdas with an unbound name / outer assignment / pop / swap / import / bare underscore injected into live or dead code.",
     "Trusted: the interpreter's ordinary evaluation of the unfrozen lambda (other side of the differential), the generator's scope tracking. "
-    "Known findings F23/F24 (textual-order scope analysis of freeze) are classified by a static predicate on L.",
+    "Known findings F23/F24/F30 (textual-order scope analysis of freeze) are classified by static predicates on L.",
     "DESIGN.md §3 C17")
 
 NOT_APPLICABLE = {
